@@ -425,6 +425,32 @@ func (tt *TermTable) bin(op Op, a, b *Term) *Term {
 		if b.IsConst() && b.val == 0 {
 			return b
 		}
+	case OBvXor, OBvOr:
+		if a.IsConst() {
+			a, b = b, a
+		}
+		if b.IsConst() && b.val == 0 {
+			return a
+		}
+		if a == b {
+			if op == OBvXor {
+				return tt.BV(w, 0)
+			}
+			return a
+		}
+	case OBvAnd:
+		if a.IsConst() {
+			a, b = b, a
+		}
+		if b.IsConst() && b.val == 0 {
+			return b
+		}
+		if b.IsConst() && b.val == mask(w) {
+			return a
+		}
+		if a == b {
+			return a
+		}
 	}
 	return tt.mk(&Term{op: op, w: w, args: []*Term{a, b}})
 }
